@@ -210,6 +210,36 @@ def run(R, tier, seed, driver_ok):
                 R.count('init-covariance:ill-conditioned')
             if np.abs(M - want).max() > tol_init * max(np.abs(want).max(), 1):
                 R.violation(f'init/{opt}/wrong-matrix', f"ITML(prior={opt!r}) with a feasible prior returned a matrix that differs from the documented prior by {np.abs(M - want).max():.3g}", {'X': Xd, 'option': opt})
+        # the covariance prior of a QUADRUPLET learner covers the points of all four positions: quadruplets whose 3rd and 4th
+        # points occur nowhere else
+        import metric_learn.lsml as mlsml
+        half = len(X) // 2
+        if half >= 4:
+            qi = np.column_stack([rng.randint(0, half, size=12), rng.randint(0, half, size=12),
+                                  rng.randint(half, len(X), size=12), rng.randint(half, len(X), size=12)])
+            qi = qi[(qi[:, 0] != qi[:, 1]) & (qi[:, 2] != qi[:, 3])]
+            if len(qi) >= 3:
+                Qd = X[qi]
+                st = {}
+                o_init = mlsml._initialize_metric_mahalanobis
+
+                def spy_init(*a, **k):
+                    out = o_init(*a, **k)
+                    st['M0'] = np.array(out[0] if isinstance(out, tuple) else out, copy=True)
+                    return out
+                mlsml._initialize_metric_mahalanobis = spy_init
+                try:
+                    with warnings.catch_warnings():
+                        warnings.simplefilter('ignore')
+                        LSML(prior='covariance', max_iter=1).fit(Qd)
+                except Exception:
+                    pass
+                finally:
+                    mlsml._initialize_metric_mahalanobis = o_init
+                want4, cond4 = zoo.documented_prior('covariance', Qd)
+                R.case(('c20-init', 'covariance-quadruplets', Qd.tobytes().hex()[:40]), True, branch='init-covariance:quadruplets')
+                if want4 is not None and 'M0' in st and np.abs(st['M0'] - want4).max() > max(1e-8, 1e3 * EPS * cond4) * max(np.abs(want4).max(), 1):
+                    R.violation('init/covariance/quadruplets-wrong-matrix', f"LSML(prior='covariance'): the prior differs from the inverse covariance of the distinct points of all four positions by {np.abs(st['M0'] - want4).max():.3g}", {'quadruplets': Qd})
         # strict PD learners reject a singular prior; MMC accepts a PSD init
         # an exactly singular PSD prior (a permuted block matrix: its zero eigenvalue is computed to within an ulp,
         # so the verdict does not hinge on rounding)
